@@ -18,7 +18,7 @@ ASSUMPTIONS = ["MTRL/SHPK layouts as in Lumina/Penumbra",
 def plan(tier):
     if tier == "quick":
         return [("debug", 16, dict(n=60)), ("release", 4, dict(n=40)), ("asan", 2, dict(n=15))]
-    return [("debug", 16, dict(n=2000)), ("release", 8, dict(n=1000)), ("asan", 4, dict(n=200))]
+    return [("debug", 16, dict(n=2000)), ("release", 8, dict(n=1000)), ("asan", 4, dict(n=200)), ("memcheck", 2, dict(n=12))]
 
 
 NAME = b"abcdefghijklmnopqrstuvwxyzABCDEFGHIJKLMNOPQRSTUVWXYZ0123456789_/."
